@@ -14,6 +14,7 @@ import datetime
 import decimal
 import hashlib
 import json
+import logging
 import multiprocessing
 import os
 import sys
@@ -208,7 +209,7 @@ class Ctx:
         cur = self.violations.get(signature)
         if cur is None or size < cur['size']:
             self.violations[signature] = {'signature': signature, 'case': e, 'message': str(message)[:2000],
-                                          'size': size, 'task': self.task}
+                                          'size': size, 'task': self.task, 'env': dict(getattr(self, 'env', None) or {})}
         return True
 
     def fail(self, signature, case, message):
@@ -414,13 +415,56 @@ def drive_machine(ctx, machine_factory, max_examples, steps, salt='', rounds=4, 
 
 # ----------------------------------------------------------------------------- task execution
 
+class _FormatAndDrop(logging.Handler):
+    """formats every record (so that lazily formatted arguments are evaluated, as a real handler would) and drops it"""
+
+    def emit(self, record):
+        try:
+            self.format(record)
+        except Exception:  # noqa - a logging failure is not the caller's exception (logging prints it to stderr at most)
+            pass
+
+
+_SINK = _FormatAndDrop()
+
+
+def apply_env(env):
+    """the environment a case ran under. debug_logging: the application has switched the library's loggers to DEBUG
+    (as the --debug options and any logging.basicConfig(level=DEBUG) do); otherwise logging is off entirely."""
+    lg = logging.getLogger('cardutil')
+    if env and env.get('debug_logging'):
+        logging.disable(logging.NOTSET)
+        lg.setLevel(logging.DEBUG)
+        lg.propagate = False
+        if _SINK not in lg.handlers:
+            lg.addHandler(_SINK)
+    else:
+        logging.disable(logging.CRITICAL)
+        lg.setLevel(logging.NOTSET)
+        lg.propagate = True
+        if _SINK in lg.handlers:
+            lg.removeHandler(_SINK)
+
+
+def task_env(idx):
+    mode = os.environ.get('VERIF_DEBUG_LOGGING', 'default')
+    on = mode == 'all' or (mode == 'default' and idx % 4 == 3)
+    return {'debug_logging': True} if on else {}
+
+
 def _run_task(args):
     modname, prop, tier, seed, idx, fname, kwargs = args
     import importlib
     try:
         mod = importlib.import_module(modname)
         ctx = Ctx(prop, tier, seed, task=f'{fname}#{idx}')
-        getattr(mod, fname)(ctx, **kwargs)
+        ctx.env = task_env(idx)
+        apply_env(ctx.env)
+        ctx.labels['tasks-with-debug-logging' if ctx.env else 'tasks-with-logging-off'] += 1
+        try:
+            getattr(mod, fname)(ctx, **kwargs)
+        finally:
+            apply_env(None)
         return ('ok', ctx.export())
     except HarnessError as ex:
         return ('harness', f'{fname}#{idx}: {ex}')
@@ -507,6 +551,8 @@ def write_replay(prop, v):
     os.makedirs(os.path.join(OUT_DIR, 'replays'), exist_ok=True)
     body = {'property': prop, 'signature': v['signature'], 'message': v['message'], 'case': v['case'],
             'task': v.get('task')}
+    if v.get('env'):
+        body['env'] = v['env']
     name = f"{prop}-{hashlib.blake2b(json.dumps(body, sort_keys=True, default=repr).encode(), digest_size=6).hexdigest()}.json"
     path = os.path.join(OUT_DIR, 'replays', name)
     with open(path, 'w') as f:
